@@ -46,6 +46,8 @@ def gen_case(rng, tier, avoid):
         k = rng.choice([0, 1, 1, 1, 2, 2, 3, 4])
         L = k * cap + rng.randint(-13, 13)
         n = max(L - ob, 12 - ob)
+        if rng.random() < 0.12:
+            n = rng.randint(0, 8)        # a whole record shorter than 12 bytes: padded with 2..11 flagged pad bytes
         pls.append({'$bytes': rng.randbytes(n).hex()})
     spec.no_format(lfi, nm, pls)
     ocs = [gen.pick(rng, C.sym_ocs_choices(rng)[:9]) for _ in range(2)]
